@@ -109,6 +109,11 @@ def main(argv=None) -> int:
         return 2
 
     tmp = tempfile.mkdtemp(prefix=f"verif-{prop}-")
+    # one scratch directory per run: children killed by a watchdog cannot
+    # clean up after themselves, the run does it for them at the end
+    run_work = str(env.WORK / f"run-{prop}-{os.getpid()}")
+    os.makedirs(run_work, exist_ok=True)
+    os.environ["VERIF_WORK"] = run_work
     results = []
 
     # job list -------------------------------------------------------------
@@ -272,6 +277,7 @@ def main(argv=None) -> int:
     try:
         import shutil
         shutil.rmtree(tmp, ignore_errors=True)
+        shutil.rmtree(run_work, ignore_errors=True)
     except Exception:  # pylint: disable=broad-except
         pass
     return rc
